@@ -120,7 +120,40 @@ func (w worldC) Gen(r *core.Rand, env *core.Env) CCase {
 		c = w.genMixed(r, env)
 	}
 	cwDrawLockKnobs(r, &c) // drawn last: the rest of the case is what the seed gave before these knobs existed
+	cwWalWarm(r, &c)       // drawn after that, for the same reason
 	return c
+}
+
+// cwWalWarm: in one case of eight the prologue ends with 8-10 extra (small write, flush) pairs, so that the shard's
+// write-ahead-log file sequence has passed 9 when the concurrent phase starts: file names are <seq>.wal without
+// padding, and a write racing with a flush leaves two log files (9.wal, 10.wal) that a restart has to replay in
+// numeric order (seeded change C01-d ordered them as strings).
+func cwWalWarm(r *core.Rand, c *CCase) {
+	if r.Intn(8) != 0 {
+		return
+	}
+	n := r.Range(8, 10)
+	pos := 0
+	for i, op := range c.Ops {
+		if op.T != cwTPrologue {
+			break
+		}
+		pos = i + 1
+	}
+	var warm []COp
+	for i := 0; i < n; i++ {
+		warm = append(warm, COp{T: cwTPrologue, K: "w", Rows: []SRow{{M: 0, S: 0, T: 0, F: 15}}}, COp{T: cwTPrologue, K: "flush"})
+	}
+	ops := append([]COp(nil), c.Ops[:pos]...)
+	ops = append(ops, warm...)
+	c.Ops = append(ops, c.Ops[pos:]...)
+	id := 0
+	for i := range c.Ops {
+		if c.Ops[i].K == "w" {
+			id++
+			c.Ops[i].ID = id
+		}
+	}
 }
 
 // cwLockSiteGroups: swarm-style focus of the lock-level yield points on one part of the code.
